@@ -65,3 +65,36 @@ pub struct ZstDrop;
 impl Drop for ZstDrop {
     fn drop(&mut self) {}
 }
+
+/// `N` bytes, align 1 (sizes chosen by the adaptive corpus family).
+#[derive(Clone, Copy, Debug, PartialEq)]
+pub struct Blob<const N: usize>(pub [u8; N]);
+
+/// `8 * N` bytes, align 8.
+#[derive(Clone, Copy, Debug, PartialEq)]
+pub struct Words<const N: usize>(pub [u64; N]);
+
+/// Owns memory; `24 + 8 * N` bytes, align 8.
+#[derive(Clone, Debug, PartialEq)]
+pub struct Heavy<const N: usize>(pub String, pub [u64; N]);
+
+macro_rules! serde_as_seq {
+    ($t:ident, $elem:ty, |$v:ident| $items:expr, |$w:ident| $build:expr) => {
+        impl<const N: usize> Serialize for $t<N> {
+            fn serialize<S: serde::Serializer>(&self, s: S) -> Result<S::Ok, S::Error> {
+                let $v = self;
+                let items: $elem = $items;
+                items.serialize(s)
+            }
+        }
+        impl<'de, const N: usize> Deserialize<'de> for $t<N> {
+            fn deserialize<D: serde::Deserializer<'de>>(d: D) -> Result<Self, D::Error> {
+                let $w = <$elem>::deserialize(d)?;
+                $build.ok_or_else(|| <D::Error as serde::de::Error>::custom("wrong length"))
+            }
+        }
+    };
+}
+serde_as_seq!(Blob, Vec<u8>, |v| v.0.to_vec(), |w| <[u8; N]>::try_from(w).ok().map(Blob));
+serde_as_seq!(Words, Vec<u64>, |v| v.0.to_vec(), |w| <[u64; N]>::try_from(w).ok().map(Words));
+serde_as_seq!(Heavy, (String, Vec<u64>), |v| (v.0.clone(), v.1.to_vec()), |w| <[u64; N]>::try_from(w.1).ok().map(|a| Heavy(w.0, a)));
